@@ -38,12 +38,20 @@ fn main() {
         let mut it = act.split(',').map(|x| x.parse::<f32>().unwrap());
         cfg.activity = Some((it.next().unwrap(), it.next().unwrap()));
     }
+    let repeat = a.contains_key("repeat");
     let emit = |c: &Case| {
         wd.begin(c.id);
         let obs = run_case(c, &cfg);
+        // a second fresh solver in the same process must behave identically
+        let same = if repeat {
+            let o2 = run_case(c, &cfg);
+            Some(o2.outcome == obs.outcome && o2.conflict == obs.conflict && o2.calls == obs.calls)
+        } else {
+            None
+        };
         wd.end();
         let mut so = so.lock();
-        let _ = writeln!(so, "{}", serde_json::json!({"case": c, "obs": obs}));
+        let _ = writeln!(so, "{}", serde_json::json!({"case": c, "obs": obs, "repeat_equal": same}));
     };
     if let Some(path) = cases_in {
         // replay: a file with one Case JSON (or {"case":..}) per line
